@@ -4,6 +4,7 @@
 import json, os, subprocess, sys, time, glob, shutil
 ROOT = os.path.dirname(os.path.dirname(os.path.abspath(__file__)))
 ENV = dict(os.environ, GOFLAGS="-mod=mod", GOPROXY="off")
+REPO = os.environ.get("VERIF_REPO", "/repo")
 
 def sh(cmd, cwd=ROOT, timeout=3600):
     p = subprocess.run(cmd, cwd=cwd, env=ENV, stdout=subprocess.PIPE, stderr=subprocess.STDOUT, text=True, timeout=timeout)
@@ -18,10 +19,10 @@ for d in sorted(glob.glob(os.path.join(ROOT, "seeded", "*", "meta.json"))):
         continue
     meta = json.load(open(d))
     pid = meta["property"]
-    rc, out = sh(["git", "-C", "/repo", "status", "--short"])
+    rc, out = sh(["git", "-C", REPO, "status", "--short"])
     assert not out.strip(), out
     try:
-        rc, out = sh(["git", "-C", "/repo", "apply", os.path.join(sd, "patch.diff")])
+        rc, out = sh(["git", "-C", REPO, "apply", os.path.join(sd, "patch.diff")])
         assert rc == 0, out
         t0 = time.time()
         rc, out = sh(["./check", pid, "--tier", "quick"])
@@ -33,7 +34,7 @@ for d in sorted(glob.glob(os.path.join(ROOT, "seeded", "*", "meta.json"))):
             if os.path.exists(rp):
                 shutil.copy(rp, os.path.join(sd, f"replay-{pid}.txt"))
     finally:
-        sh(["git", "-C", "/repo", "checkout", "--", "."])
+        sh(["git", "-C", REPO, "checkout", "--", "."])
     json.dump(meta, open(d, "w"), indent=1)
     print(name, "DETECTED" if rc != 0 else "MISSED", vio[:1], flush=True)
     if rc == 0:
